@@ -57,6 +57,7 @@ func runC12(c *core.Ctx) {
 	c12Passed(c, root)
 	c12Queue(c, root)
 	c12Bucket(c, root)
+	c12Units(c, root)
 	c12Oldest(c, root)
 	c12OnBuffers(c, root)
 }
@@ -1124,7 +1125,7 @@ func c12Bucket(c *core.Ctx, root *packages.Package) {
 	for _, st := range sites {
 		c.Check(st.method == major, "C12.bucket", st.cons, st.pos, "this site buckets the time with %s while the other %d sites use %s: a point in the upper half of a tolerance interval lands in another bucket here than where its partner was filed, so the pair is found only under one arrival order (inner join drops it, outer join emits a filled row)", st.method, count[major], major)
 	}
-	c.Floor("C12.bucket", "tolerance bucketing sites in the join", len(sites), 7)
+	c.Floor("C12.bucket", "tolerance bucketing sites in the join", len(sites), 5)
 }
 
 // c12Oldest: F47. emit reads g.sets[g.oldestTime] and dereferences it whenever sets is not empty, so oldestTime must be a key of
